@@ -52,7 +52,7 @@ func loadWorld(repo string, patterns []string) (*World, error) {
 		return nil, fmt.Errorf("load errors: %s", strings.Join(w.loadErrors, "; "))
 	}
 	w.pkgs = pkgs
-	prog, spkgs := ssautil.Packages(pkgs, ssa.InstantiateGenerics)
+	prog, spkgs := ssautil.Packages(pkgs, ssa.InstantiateGenerics|ssa.GlobalDebug)
 	prog.Build()
 	w.prog = prog
 	for i, sp := range spkgs {
